@@ -31,6 +31,15 @@ RULE = ("BFS over call histories (events = public mutators/queries of cirq.Circu
         "deduplicated by canonical form incl. cache-validity bits; a transition is non-trivial when the event "
         "changed the canonical state or was checked against the placement/order reference model; distinct = "
         "distinct (state, event) pairs")
+TECHNIQUE = ("explicit-state BFS over call histories on the live Circuit object (state-hash dedup incl. cache bits); "
+             "reference-model + differential oracle on every transition")
+LEVEL_TEXT = ("All histories up to the stated depth over the event alphabet (every mutator/query of Circuit with all 5 insert "
+              "strategies, clamped indices, op trees) are executed on the real object; each transition is checked for "
+              "well-formedness, conservation, per-qubit/per-key order, documented single-op placement, query agreement and "
+              "differential replay against a freshly rebuilt equal circuit. Exhaustive within the depth/alphabet bound; not a "
+              "proof for longer histories.")
+LEVEL_NOTE = ("trusted: numpy/sympy, Moment construction from an op list (used to rebuild the fresh circuit); operations with "
+              "equal repr are interchangeable")
 ASSUMPTIONS = [
     "operations with equal value are interchangeable (order is checked on values, not object identity)",
     "EARLIEST single-op insert at index k whose predecessor conflicts may land in moment k if it fits there "
